@@ -126,7 +126,8 @@ void harness(void) {
         int xfd = p_socket_get_fd(X);
         VASSERT(xfd != fd && VFD(open, xfd) && VFD(cloexec, xfd) && VFD(nonblock, xfd), "accepted descriptor: open, close-on-exec, non-blocking");
         VASSERT(p_socket_is_connected(X) && !p_socket_is_closed(X) && p_socket_get_blocking(X) && p_socket_get_timeout(X) == 0 &&
-                p_socket_get_listen_backlog(X) == 5 && !p_socket_get_keepalive(X), "accepted socket: connected, open, default modes");
+                p_socket_get_listen_backlog(X) == 5 && (p_socket_get_keepalive(X) != 0) == VFD(keepalive, xfd) && VFD(keepalive, xfd) == VFD(keepalive, fd),
+                "accepted socket: connected, open, default modes, keepalive getter = the descriptor's (inherited) option");
         p_socket_free(X);
         VASSERT(!VFD(open, xfd) && VFD(closes, xfd) == 1, "accepted descriptor closed once by free");
         accepted = 1;
